@@ -1213,6 +1213,44 @@ class Dtd(Family):
         ]
 
 
+class Chameleon(Family):
+    """A chameleon document (no targetNamespace) included by a namespaced and by a no-namespace document."""
+    name = 'chameleon'
+    paths = ()
+    extra = ('ct.xsd',)
+
+    def sources(self, version):
+        return {
+            'nons.xsd': f'''<xs:schema {XS}>
+ <xs:include schemaLocation="cham.xsd"/>
+ <xs:element name="plain" type="Code"/>
+</xs:schema>''',
+            'ct.xsd': f'''<xs:schema {XS} targetNamespace="urn:c" xmlns:c="urn:c" elementFormDefault="qualified">
+ <xs:include schemaLocation="cham.xsd"/>
+ <xs:element name="named" type="c:Code"/>
+</xs:schema>''',
+            'cham.xsd': f'''<xs:schema {XS}>
+ <xs:simpleType name="Code"><xs:restriction base="xs:string"><xs:pattern value="[A-Z][0-9]"/></xs:restriction></xs:simpleType>
+ <xs:element name="item" type="Code"/>
+</xs:schema>''',
+        }
+
+    def assemble(self, directory, cls, build=True, order=None):
+        import os
+        names = list(order) if order is not None else ['nons.xsd', 'ct.xsd']
+        return cls([os.path.join(directory, n) for n in names], build=build)
+
+    def docs(self, rng):
+        return [
+            Doc('ch-plain', _decl() + '<plain>A1</plain>'),
+            Doc('ch-item', _decl() + '<item>B2</item>'),
+            Doc('ch-named', _decl() + '<c:named xmlns:c="urn:c">C3</c:named>'),
+            Doc('ch-named-item', _decl() + '<c:item xmlns:c="urn:c">D4</c:item>'),
+            Doc('ch-bad-plain', _decl() + '<plain>a1</plain>', 'fault:lexical'),
+            Doc('ch-bad-named', _decl() + '<c:named xmlns:c="urn:c">zz</c:named>', 'fault:lexical'),
+        ]
+
+
 class Big(Family):
     """Width-parameterised documents that cross the 16 KiB read size of iterparse."""
     name = 'big'
@@ -1286,4 +1324,4 @@ def with_double_faults(docs, rng, n=4):
 
 
 FAMILIES = {f.name: f for f in (Ids(), Keys(), XsiType(), Subst(), Fixed(), Wild(), Ns(), Mixed(),
-                                Assert11(), Recur(), Multi(), Multi2(), Shadow(), IdFields(), Dtd(), Big())}
+                                Assert11(), Recur(), Multi(), Multi2(), Shadow(), IdFields(), Dtd(), Chameleon(), Big())}
